@@ -1982,8 +1982,16 @@ class Interp:
         ks = d.f['okeys']
         k = self.coerce_sort(idx, ks.sort().basis(), n)
         self.p.oblige('safety', z3.Contains(ks, z3.Unit(k)), n, 'key present (KeyError)', tag='safety')
-        i = z3.IndexOf(ks, z3.Unit(k), 0)
-        d.f['okeys'] = z3.Concat(z3.Extract(ks, 0, i), z3.Extract(ks, i + 1, z3.Length(ks) - i - 1))
+        if z3.simplify(ks[0]).eq(z3.simplify(k)) or ks[0].eq(k):
+            # deleting the first key: the rest of the sequence
+            d.f['okeys'] = z3.Extract(ks, 1, z3.Length(ks) - 1)
+            return
+        # ks = A ++ [k] ++ B with k not in A  (exists because k is present);  result A ++ B
+        a = self.p.fresh('before', ks.sort())
+        b = self.p.fresh('after', ks.sort())
+        self.p.assume(ks == z3.Concat(a, z3.Unit(k), b))
+        self.p.assume(z3.Not(z3.Contains(a, z3.Unit(k))))
+        d.f['okeys'] = z3.Concat(a, b)
 
     # ---- attributes ----------------------------------------------------------------
     def ex_Attribute(self, n):
@@ -2411,7 +2419,7 @@ BUILTINS = {
     'len', 'isinstance', 'bool', 'int', 'str', 'min', 'max', 'range', 'all', 'any', 'getattr', 'hasattr',
     'callable', 'next', 'iter', 'enumerate', 'abs', 'repr', 'sorted', 'hash', 'issubclass', 'super', 'print', 'id',
     'ord', 'chr', 'zip', 'sum', 'old', 'int_ok', 'uint_ok', 'float_ok', 'implies', 'type', 'dict_with', 'dict_get',
-    'dict_has', 'seq_eq', 'out_ok', 'out_frame', 'out_ret', 'out_cut', 'out_fail_frame', 'exc_inside', 'exc_is', 'boundcall', 'top_only', 'store', 'o_none', 'o_ok', 'same_func', 'ismethod', 'is_func', 'ast_walk', 'is_ok', 'is_err', 'ok_res', 'is_failure', 'grown', 'memo_ok', 'outcome_ok', 'submap',
+    'dict_has', 'seq_eq', 'out_ok', 'out_frame', 'out_ret', 'out_cut', 'out_fail_frame', 'exc_inside', 'exc_is', 'boundcall', 'top_only', 'store', 'o_none', 'o_ok', 'same_func', 'ismethod', 'is_func', 'ast_walk', 'is_ok', 'is_err', 'ok_res', 'is_failure', 'grown', 'memo_ok', 'outcome_ok', 'submap', 'forall_keys', 'is_suffix',
 }
 
 
